@@ -102,7 +102,9 @@ static unsigned vp_flags(void)
 static void vp_parse_witnesses(const struct r3986 *R, size_t len)
 {
 	if (len == VP_L) VP_WITNESS("parse: accepted at full length");
+#ifndef VP_NO_WIT_QF
 	if (R->has_query && R->has_frag) VP_WITNESS("parse: query and fragment");
+#endif
 #ifdef VP_WIT_SCHEME
 	if (R->has_scheme && R->has_auth && R->path_len > 0) VP_WITNESS("parse: scheme + authority + path");
 #endif
@@ -340,46 +342,43 @@ void harness_setters(void)
 }
 
 /* --------------------------------------------------------------- join limit
- * evhttp_uri_join(uri, buf, limit) on a parsed URI: succeeds exactly when the joined text plus its NUL fits
- * into `limit` bytes, then returns buf holding the same text as a join into a large buffer; it never writes
- * at or behind buf[limit] (bytes there keep their solver-chosen values), also when it refuses.
+ * evhttp_uri_join(uri, buf, limit) on a URI with a symbolic host, path and query (each optional, at most
+ * VP_KH / VP_KP / VP_KQ bytes) set through the setters, limit any value up to the buffer size: succeeds exactly when the joined text plus its NUL fits
+ * into `limit` bytes, then returns buf holding the same text as a join into a large buffer; it never writes at
+ * or behind buf[limit] (bytes there keep their solver-chosen values), also when it refuses.
  */
+#define VP_LJ (VP_SJMAX + 2)
 void harness_join_limit(void)
 {
-	unsigned char s[VP_L + 1];
-	char big[VP_JMAX], buf[VP_JMAX], canary[VP_JMAX];
-	struct evhttp_uri *u;
-	size_t tlen = (size_t)vp_range(0, VP_N), i, full, limit = (size_t)vp_range(0, VP_JMAX);
-	unsigned flags = vp_flags();
+	char ch[VP_KMAX + 1], cp[VP_KMAX + 1], cq[VP_KMAX + 1];
+	char big[VP_LJ], buf[VP_LJ], canary[VP_LJ];
+	const char *host, *path, *query;
+	struct evhttp_uri *u = evhttp_uri_new();
+	size_t i, full, limit = (size_t)vp_range(0, VP_LJ);
 	int same = 1, intact = 1;
 	char *j;
 
-	for (i = 0; i < VP_PLEN; i++) s[i] = (unsigned char)VP_PREFIX[i];
-	vp_bytes(s + VP_PLEN, VP_N);
-	for (i = 0; i < VP_N; i++) {
-		if (i >= tlen) s[VP_PLEN + i] = 0;
-		else __CPROVER_assume(s[VP_PLEN + i] != 0);
-	}
-	s[VP_L] = 0;
-	vp_v6_verdict = vp_bool();
-	u = evhttp_uri_parse_with_flags((const char *)s, flags);
-	if (u == NULL) return;
+	__CPROVER_assume(u != NULL);
+	evhttp_uri_set_flags(u, EVHTTP_URI_NONCONFORMANT);
+	host = vp_component(ch, VP_KH); path = vp_component(cp, VP_KP); query = vp_component(cq, VP_KQ);
+	if ((host && evhttp_uri_set_host(u, host) < 0) || (path && evhttp_uri_set_path(u, path) < 0) || (query && evhttp_uri_set_query(u, query) < 0))
+		return;
 	j = evhttp_uri_join(u, big, sizeof(big));
-	VP_ASSERT(j == big, "C28: evhttp_uri_join refuses a parsed URI");
-	if (j != big) return;
+	if (j == NULL) return;                        /* unrepresentable component set (see harness_setters) */
+	VP_ASSERT(j == big, "C28: evhttp_uri_join returns its buffer");
 	full = strlen(big) + 1;
-	vp_bytes(canary, VP_JMAX);
-	for (i = 0; i < VP_JMAX; i++) buf[i] = canary[i];
+	vp_bytes(canary, VP_LJ);
+	for (i = 0; i < VP_LJ; i++) buf[i] = canary[i];
 	j = evhttp_uri_join(u, buf, limit);
 	VP_ASSERT((j != NULL) == (limit >= full), "C28: evhttp_uri_join succeeds exactly when the text and its NUL fit into limit");
 	VP_ASSERT(j == NULL || j == buf, "C28: evhttp_uri_join returns its buffer or NULL");
-	for (i = 0; i < VP_JMAX; i++) {
+	for (i = 0; i < VP_LJ; i++) {
 		if (i >= limit && buf[i] != canary[i]) intact = 0;
 		if (j != NULL && i < full && buf[i] != big[i]) same = 0;
 	}
 	VP_ASSERT(intact, "C28: evhttp_uri_join writes outside the limit it was given");
 	VP_ASSERT(same, "C28: evhttp_uri_join result depends on the limit");
 	if (j == NULL && limit > 0) VP_WITNESS("join: refused, does not fit");
-	if (j != NULL && limit == full) VP_WITNESS("join: fits exactly");
+	if (j != NULL && limit == full && full > 3) VP_WITNESS("join: fits exactly");
 	evhttp_uri_free(u);
 }
